@@ -183,7 +183,8 @@ impl TableBootstrapInner {
             let mut receivers = FuturesUnordered::new();
             let (new_receivers_tx, mut new_receivers_rx) = mpsc::unbounded_channel();
 
-            let contact_count = router_addresses.len() + self.starting_nodes.len();
+            // An address may be given both as a router and as a node; it is one contact.
+            let contact_count = router_addresses.union(&self.starting_nodes).count();
             let stop_at = std::cmp::min(contact_count, MAX_INITIAL_RESPONSES);
             let mut responses_received = 0;
 
@@ -329,7 +330,9 @@ impl TableBootstrapInner {
         let mut last_send_error = None;
         let mut count = 0;
 
-        for addr in router_addresses.iter().chain(self.starting_nodes.iter()) {
+        // All these requests share one transaction id, so each address is contacted only once
+        // (the socket tracks the pending exchange by address and transaction id).
+        for addr in router_addresses.union(&self.starting_nodes) {
             // Throttle sending if there is too many initial contacts
             if count > PINGS_PER_BUCKET {
                 time::sleep(NODE_TIMEOUT.max(Self::nat_friendly_send_duration())).await;
